@@ -38,6 +38,8 @@ type GenOpts struct {
 	SmallInts  bool // also use int8/uint8/uint32 locals
 	Panics     bool // allow statements that may panic at run time (index out of range, nil map write ...)
 	FuncLits   bool
+	OneStruct  bool // exactly one struct type
+	NoGlobals  bool // no generated package-level variables
 }
 
 type Gen struct {
@@ -1159,6 +1161,9 @@ func (g *Gen) Program(id string) *Prog {
 	g.chLeft = 6
 	if g.o.Structs {
 		ns := 1 + g.r.Intn(2)
+		if g.o.OneStruct {
+			ns = 1
+		}
 		for i := 0; i < ns; i++ {
 			sd := &StructDef{Name: fmt.Sprintf("T%d", i)}
 			nf := 1 + g.r.Intn(4)
@@ -1175,7 +1180,11 @@ func (g *Gen) Program(id string) *Prog {
 	}
 	// package-level variables
 	g.scopes = [][]gvar{nil}
-	for i := g.r.Intn(3); i > 0; i-- {
+	ng := g.r.Intn(3)
+	if g.o.NoGlobals {
+		ng = 0
+	}
+	for i := ng; i > 0; i-- {
 		t := g.scalarType()
 		name := g.fresh("G")
 		if g.r.Intn(2) == 0 {
